@@ -93,11 +93,25 @@ func wrapValue(v reflect.Value, wrap string) reflect.Value {
 	case "interface":
 		var i interface{} = v.Interface()
 		return reflect.ValueOf(&i).Elem()
+	case "pointer-to-pointer":
+		p := reflect.New(v.Type())
+		p.Elem().Set(v)
+		pp := reflect.New(p.Type())
+		pp.Elem().Set(p)
+		return pp
+	case "pointer-to-interface":
+		var i interface{} = v.Interface()
+		return reflect.ValueOf(&i)
+	case "interface-holding-pointer":
+		p := reflect.New(v.Type())
+		p.Elem().Set(v)
+		var i interface{} = p.Interface()
+		return reflect.ValueOf(&i).Elem()
 	}
 	return v
 }
 
-var wraps = []string{"plain", "pointer", "interface"}
+var wraps = []string{"plain", "pointer", "interface", "pointer-to-pointer", "pointer-to-interface", "interface-holding-pointer"}
 
 func numOperands() []cmpOperand {
 	var ops []cmpOperand
@@ -275,6 +289,10 @@ func runC19Direct(c *Ctx) (pairs, crossKind int, bad []string, samples []interfa
 	addT("now stripped", now.Round(0))
 	addT("now stripped +01:00", now.Round(0).In(time.FixedZone("plus1", 3600)))
 	addT("unix0", time.Unix(0, 0))
+	addT("9999-12-31", time.Date(9999, 12, 31, 23, 59, 59, 0, time.UTC))
+	addT("2300-01-01", time.Date(2300, 1, 1, 0, 0, 0, 0, time.UTC))
+	addT("1600-01-01", time.Date(1600, 1, 1, 0, 0, 0, 0, time.UTC))
+	addT("0001-01-02", time.Date(1, 1, 2, 0, 0, 0, 0, time.UTC))
 	for _, a := range tops {
 		for _, b := range tops {
 			pairs++
@@ -454,7 +472,7 @@ func runC19Case(c *Ctx, idx int) *CaseResult {
 func init() {
 	register(&Check{
 		ID: "C19", Level: "exploration",
-		Rule: "direct part, exhaustive over a finite domain: every ordered pair of the 12 numeric kinds x {plain, behind pointer, in interface} x 36 boundary values (0, +-1, +-0.5, +-1.25, every width limit <= MaxInt64, 2^24, 2^24+1, 0.1 as float64 and as float32, 2^53-1, 2^53, 2^53+1, MaxInt64, MinInt64) that are exactly representable in both kinds (float pairs: exactly representable as float64), strings (empty, prefixes, case, non-ASCII, NUL, invalid UTF-8), booleans (== and != only), times (same instant in 4 locations, +-1ns, zero, with/without monotonic reading), each with all 6 operators, the mirrored call and the exact mathematical order as value-determinism oracle; GRL part: seeded sample of numeric kind/value pairs through conditions over typed fact fields (also via *int64 and interface{} fields), plus string and time pairs (every eighth case); non-trivial = pairs of different kinds / wrappings / locations",
+		Rule: "direct part, exhaustive over a finite domain: every ordered pair of the 12 numeric kinds x {plain, behind pointer, in interface, pointer to pointer, pointer to interface, interface holding a pointer} x 36 boundary values (0, +-1, +-0.5, +-1.25, every width limit <= MaxInt64, 2^24, 2^24+1, 0.1 as float64 and as float32, 2^53-1, 2^53, 2^53+1, MaxInt64, MinInt64) that are exactly representable in both kinds (float pairs: exactly representable as float64), strings (empty, prefixes, case, non-ASCII, NUL, invalid UTF-8), booleans (== and != only), times (same instant in 4 locations, +-1ns, zero, with/without monotonic reading, years 1, 1600, 2300, 9999), each with all 6 operators, the mirrored call and the exact mathematical order as value-determinism oracle; GRL part: seeded sample of numeric kind/value pairs through conditions over typed fact fields (also via *int64 and interface{} fields), plus string and time pairs (every eighth case); non-trivial = pairs of different kinds / wrappings / locations",
 		Assume: []string{"NaN excluded", "unsigned values beyond MaxInt64 excluded (the property bounds the domain to the int64 range)"},
 		Cases:  tierN(4000, 100000),
 		Run:    runC19Case,
